@@ -5,7 +5,7 @@
      case_holds:  the property's clauses hold for every call of the observed history (monitors p_chk / m_chk / s_chk / q_chk,
                   which follow the OBSERVED results and never look at the model's state). *)
 From Coq Require Import ZArith List Bool.
-Require Export C12_Base C12_Pipe C12_MQ C12_Sync C12_Pri C12_Race.
+Require Export C12_Base C12_Pipe C12_MQ C12_Sync C12_Pri C12_Race C12_More.
 Import ListNotations.
 
 Inductive case :=
@@ -17,7 +17,13 @@ Inductive case :=
      harness' witness linearisation (indices into the call list) *)
   | CRacePipe (k : pkind) (n : Z) (cs : list (pop * res * Z * Z)) (lin : list nat)
   | CRaceMQ (cm rm : Z) (cs : list (mop * res * Z * Z)) (lin : list nat)
-  | CRaceSync (cs : list (sop * res * Z * Z)) (lin : list nat).
+  | CRaceSync (cs : list (sop * res * Z * Z)) (lin : list nat)
+  (* constructor histories (C12_More.v): queues built one after the other, each with its own options (None = option not given)
+     and its own history; the calls on the different queues were interleaved in time *)
+  | CGroupPipe (l : list (pkind * option Z * list (pop * res)))
+  | CGroupMQ (l : list (option Z * option Z * list (mop * res)))
+  (* PriQueue under parallel pushers and poppers: calls with results and invocation / response ticks *)
+  | CParPri (n : Z) (cs : list (qop * res * Z * Z)).
 
 Definition case_accept (c : case) : bool :=
   match c with
@@ -28,6 +34,9 @@ Definition case_accept (c : case) : bool :=
   | CRacePipe k n cs lin => pr_accept k n cs lin
   | CRaceMQ cm rm cs lin => mr_accept cm rm cs lin
   | CRaceSync cs lin => sr_accept cs lin
+  | CGroupPipe l => pg_accept l
+  | CGroupMQ l => mg_accept l
+  | CParPri n cs => pp_holds cs        (* no witness search for this class: the clauses themselves *)
   end.
 Definition case_holds (c : case) : bool :=
   match c with
@@ -38,11 +47,14 @@ Definition case_holds (c : case) : bool :=
   | CRacePipe k n cs lin => pr_holds cs
   | CRaceMQ cm rm cs lin => mr_holds cs
   | CRaceSync cs lin => sr_holds cs
+  | CGroupPipe l => pg_holds l
+  | CGroupMQ l => mg_holds l
+  | CParPri n cs => pp_holds cs
   end.
 
 Theorem case_sound : forall c, case_accept c = true -> case_holds c = true.
 Proof.
-  intros [k n h|cm rm h|h|n h|k n cs lin|cm rm cs lin|cs lin]; cbn [case_accept case_holds].
+  intros [k n h|cm rm h|h|n h|k n cs lin|cm rm cs lin|cs lin|l|l|n cs]; cbn [case_accept case_holds].
   - apply p_accept_sound.
   - apply m_accept_sound.
   - apply s_accept_sound.
@@ -50,6 +62,9 @@ Proof.
   - apply r_accept_holds.
   - apply r_accept_holds.
   - apply r_accept_holds.
+  - apply pg_accept_sound.
+  - apply mg_accept_sound.
+  - auto.
 Qed.
 
 (* ---- non-vacuity: concrete histories (every clause of the property shows up at least once) ---- *)
